@@ -2,7 +2,6 @@
 Built-in span-level token classes.
 """
 
-import html
 import re
 import mistletoe.span_tokenizer as tokenizer
 from mistletoe import core_tokens, token
@@ -242,7 +241,7 @@ class EscapeSequence(SpanToken):
     def strip(cls, string):
         # one pass: a character that was backslash-escaped (e.g. "&") cannot start a character reference
         parts = cls.pattern.split(string)
-        return ''.join(part if i % 2 else html.unescape(part) for i, part in enumerate(parts))
+        return ''.join(part if i % 2 else tokenizer.unescape(part) for i, part in enumerate(parts))
 
 
 class LineBreak(SpanToken):
